@@ -154,7 +154,10 @@ class _PokTranslator(_util.OverrideableDataDesc):
         sig = self.__signature__
         return self.func, ast, sig
 
-    def __call__(self, *args, **kwargs):
+    def __call__(*args, **kwargs):
+        # the receiver is taken off the positional arguments so that a
+        # parameter of the function that is called `self` can be passed by name
+        self, args = args[0], args[1:]
         intersect = self.posoarg_names.intersection(kwargs)
         if intersect:
             raise TypeError(
